@@ -134,6 +134,17 @@ def _rows_job(job):
             x, y = mk(a), mk(b)
             v = _safe((lambda: x == y) if op == "eq" else (lambda: x != y))
             r["r"] = (1 if v else 0) if isinstance(v, bool) else str(v)
+        elif op in ("lt", "le", "gt", "ge"):
+            a, b = o
+            r["a"], r["b"] = a, b
+            x, y = mk(a), mk(b)
+            v = _safe({"lt": lambda: x < y, "le": lambda: x <= y, "gt": lambda: x > y, "ge": lambda: x >= y}[op])
+            r["r"] = (1 if v else 0) if isinstance(v, bool) else str(v)
+        elif op == "int":
+            r["a"] = o
+            x = mk(o)
+            v = _safe(lambda: int(x))
+            r["r"] = v if isinstance(v, int) and not isinstance(v, bool) else str(v)
         elif op == "neg":
             r["a"] = o
             x = mk(o)
@@ -219,6 +230,10 @@ def build_tables(tier: str, seed: int, families=("ref", "opt"), log=lambda *a: N
                 jobs.append(((fi, f, fam, op, operands), arity if exhaustive else 0))
             for op in ("add", "sub", "mul", "div", "eq", "ne"):
                 add(op, pairs, 2, ex_bin)
+            if d == 1:
+                for op in ("lt", "le", "gt", "ge"):
+                    add(op, pairs if len(pairs) <= 1000 else pairs[:1000])
+                add("int", el_un, 1, ex_un)
             add("neg", el_un, 1, ex_un)
             add("inv", el_un, 1, ex_un)
             if fam == "opt":
